@@ -52,7 +52,7 @@ m = {"version": 1,
  "setup_cmd": "./check --setup",
  "hooks": {"guard": "verif", "enable": "go build -tags verif (done by ./check on every run, from /repo's working tree)",
            "baseline_off_cmd": "cd /repo && GOFLAGS=-mod=mod GOPROXY=off GOSUMDB=off GOTOOLCHAIN=local go test -json -vet=off -count=1 -timeout 25m ./...",
-           "source_commits": ["9089f32", "a9f9cc2", "b579375"], "add_only": True},
+           "source_commits": ["9089f32", "a9f9cc2", "b579375", "b5c7407"], "add_only": True},
  "engines": [{"name": "harness", "path": "/verif/harness", "serves_properties": sorted(READY),
               "kind_free_text": "Go runtime-monitoring harness: per-property workload + oracle executables run in child processes against /repo built with -tags verif (and -race where schedules matter); yield-point controller; porcupine for recorded histories"}],
  "checks": checks,
